@@ -302,7 +302,7 @@ fn lut_codes(ctx: &Ctx, report: &mut Report) {
         "every integer code n: decode (f32 and f64 tables) equals the standard curve at n/max, is monotone in n, decode(0)=0, decode(max)=1, and encode(decode(n)) == n through the f32 and f64 entry points; \
          distinct = (encoder, code)",
     );
-    m.tolerance = Some("decode tables: 1e-7 abs (+1 ulp f32) of the published curve".into());
+    m.tolerance = Some("decode tables: sRGB 3e-8 (its generated table uses a continuity-adjusted constant, 1.4e-8 off the published curve), all others 1e-12, f32 tables + 1 ulp".into());
     for e in encoders() {
         let replay = ctx.replay_input(mname, e.name);
         if ctx.replaying() && replay.is_none() {
@@ -322,8 +322,14 @@ fn lut_codes(ctx: &Ctx, report: &mut Report) {
             let d32 = (a as f64 - want).abs();
             let d64 = (b - want).abs();
             m.dev(d64, || json!({"encoder": e.name, "code": n, "table_f64": b, "model": want}));
+            m.counter_max(&format!("max:decode_f64_deviation_e15:{}", e.name), (d64 * 1e15) as u64);
+            if b == a as f64 && n != 0 && n != e.max {
+                m.count(&format!("f64_table_value_is_an_f32_value:{}", e.name));
+            }
             // the generated tables use a continuity-adjusted alpha (1.05501.. instead of 1.055): up to 1.4e-8 off the published curve
-            if !(d32 <= 1e-7 + 1.01 * ulp32(want as f32)) || !(d64 <= 1e-7) {
+            // (measured on the unchanged tree: sRGB 1.4e-8, every other table below 2e-15)
+            let tol64 = if e.name == "Srgb" { 3e-8 } else { 1e-12 };
+            if !(d32 <= tol64 + 1.01 * ulp32(want as f32)) || !(d64 <= tol64) {
                 m.violate(e.name, "decode_table_value", json!({"code": n}), json!({"f32": a, "f64": b}), json!(want), "");
             }
             if !(a > p32) || !(b > p64) {
